@@ -300,7 +300,8 @@ impl TrackShared {
 			2 => TrackPlaybackState::Paused,
 			3 => TrackPlaybackState::WaitingToResume,
 			4 => TrackPlaybackState::Resuming,
-			_ => panic!("Invalid playback state"),
+			// tracks are never stopping or stopped
+			_ => TrackPlaybackState::Paused,
 		}
 	}
 
